@@ -47,7 +47,7 @@ DESIGN = {  # property -> (module, quick cfg, thorough cfg, description)
     "C01": ("MC_TopologyAware", "MC_TopologyAware_quick.cfg", "MC_TopologyAware.cfg", "TopologyAware on T1 (root + 2 NUMA pools, reserved + isolated CPU), 3 containers x 6 (quick) / 9 classes; allocate, release, update (release + re-allocate, may fail)"),
     "C03": ("MC_TopologyAware", "MC_TopologyAware_quick.cfg", "MC_TopologyAware.cfg", "TopologyAware on T1 (root + 2 NUMA pools, reserved + isolated CPU), 3 containers x 6 (quick) / 9 classes; allocate, release, update (release + re-allocate, may fail)"),
     "C09": ("MC_TopologyAware", "MC_TopologyAware_quick.cfg", "MC_TopologyAware.cfg", "TopologyAware on T1: Inv_Quiescent over every allocate/release interleaving (balloons: Balloons.tla Inv_Quiescent in C02's run)"),
-    "C02": ("MC_Balloons", "MC_Balloons_quick.cfg", "MC_Balloons.cfg", "Balloons on 6 CPUs in 2 packages, 3 balloon types (dynamic/package-sharing, capped preferNew-like/system-sharing, pre-created), 2 (quick) or 3 (thorough) containers x 3 request sizes"),
+    "C02": ("MC_Balloons", "MC_Balloons_quick.cfg", "MC_Balloons.cfg", "Balloons on 6 CPUs (3 hyperthread pairs) in 2 unequal packages, 3 balloon types (dynamic/package-sharing, capped hyperthread-hiding/system-sharing, pre-created), stored shared idle sets + told cpusets with step-wise re-pinning, 2 (quick) or 3 (thorough) containers x 3 request sizes"),
     "C05": ("MC_Pipeline", "MC_Pipeline_quick.cfg", "MC_Pipeline.cfg", "Pipeline: 1-2 pods x 2 containers, nondeterministic policy writes and failures, consistent runtime environment"),
     "C12": ("MC_Pipeline", "MC_Pipeline_events_quick.cfg", "MC_Pipeline_events.cfg", "Pipeline with policy events (cold start completion between requests: its change is pending until a draining request); the opt-out predicates are checked on real traces"),
     "C14": ("MC_Pipeline", "MC_Pipeline_C14_quick.cfg", "MC_Pipeline_C14.cfg", "Pipeline with the unconstrained environment (any event, any id, any order)"),
@@ -72,7 +72,13 @@ DESIGN_EXTRA = {
     # repair of F-C05-1/2 (return without draining) is refuted by TLC
     "C05": [("MC_Pipeline", "MC_Pipeline_noflush.cfg", "Inv_FailedRequestFlushes")],
     # CPU classes at design level: a creation undone after newBalloon must return the CPUs with the idle class (F-C02-3)
-    "C02": [("MC_Balloons", "MC_Balloons_undoclass.cfg", "Inv_CpuClass")],
+    "C02": [("MC_Balloons", "MC_Balloons_undoclass.cfg", "Inv_CpuClass"),
+            # idle-CPU sharing is STORED per balloon and maintained incrementally; only balloons whose stored set changed are
+            # re-pinned.  Must be refuted: deleting a balloon without re-sharing its CPUs (F-C02-2 shape), re-pinning only the
+            # resized balloon, inflating without sharing the idle CPUs of the scope the balloon grew into
+            ("MC_Balloons", "MC_Balloons_delete_no_reshare.cfg", "Inv_SharedIdleCoversScope"),
+            ("MC_Balloons", "MC_Balloons_repin_self_only.cfg", "Inv_ToldIsCpusPlusShared"),
+            ("MC_Balloons", "MC_Balloons_inflate_adds_nothing.cfg", "Inv_SharedIdleCoversScope")],
     "C13": [("MC_BalloonsReconf", "MC_BalloonsReconf_none.cfg", None),
             ("MC_TopologyAware", "MC_TopologyAware_quick.cfg", None),
             ("MC_TopologyAware", "MC_TopologyAware_strictreserve.cfg", "Inv_ReinstateAnyOrder"),
@@ -391,6 +397,10 @@ def run(ctx):
            "drift_steps": drift, "samples": sample or [{"note": "no successful create in trace"}], "exhaustive": False}
     if extra_design:
         cov["design_extra"] = extra_design
+    if pid == "C04":    # the allocator's replies are what the policies pin to: reply = assignment on the real libmem (engines/memalloc.py)
+        from engines import memalloc
+        cv, cov["libmem_returned_zone"] = memalloc.returned_zone_check(ctx)
+        mine = mine + cv
     if pid == "C14":    # event sequences on the side plugins (memory-qos, memtierd, sgx-epc): engines/sideplug.py
         sv, cov["side_plugins"] = sideplug.run_side(ctx)
         mine = mine + sv
